@@ -118,6 +118,80 @@ fn mixed_safe(ctx: &Ctx, q: &str) -> bool {
     }
 }
 
+/// A second implementation of the public `Table` trait, laid out like the generated one: the private list
+/// ```text
+/// corp
+/// intra.corp
+/// *.dev.corp
+/// !www.dev.corp
+/// lan
+/// ```
+/// (an application may run a private list next to the shipped one; neither provider's answers depend on
+/// the other having been used).
+struct PrivateList;
+const PRIVATE_RULES: &str = "corp\nintra.corp\n*.dev.corp\n!www.dev.corp\nlan\n";
+impl Table for PrivateList {
+    const NODES_BITS_CHILDREN: u32 = 10;
+    const NODES_BITS_ICANN: u32 = 1;
+    const NODES_BITS_TEXT_OFFSET: u32 = 15;
+    const NODES_BITS_TEXT_LENGTH: u32 = 6;
+    const CHILDREN_BITS_WILDCARD: u32 = 1;
+    const CHILDREN_BITS_NODE_TYPE: u32 = 2;
+    const CHILDREN_BITS_HI: u32 = 14;
+    const CHILDREN_BITS_LO: u32 = 14;
+    const NODE_TYPE_NORMAL: u32 = 0;
+    const NODE_TYPE_EXCEPTION: u32 = 1;
+    const NUM_TLD: u32 = 2;
+    //                          corp lan dev intra www
+    const TEXT: &'static str = "corplandevintrawww";
+    const NODES: &'static [u32] = &[
+        (1 << 22) | 4,              // n0 corp  -> c1
+        (4 << 6) | 3,               // n1 lan   -> c0
+        (2 << 22) | (7 << 6) | 3,   // n2 dev   -> c2
+        (10 << 6) | 5,              // n3 intra -> c0
+        (3 << 22) | (15 << 6) | 3,  // n4 www   -> c3
+    ];
+    const CHILDREN: &'static [u32] = &[
+        0,                                         // c0: leaf, normal
+        (4 << 14) | 2,                             // c1: n2..n4, normal
+        (1 << 30) | (2 << 28) | (5 << 14) | 4,     // c2: n4..n5, parent-only, wildcard
+        1 << 28,                                   // c3: leaf, exception
+    ];
+}
+
+/// Lookups on the private list, compared with the list algorithm over its five rules.
+fn private_table_lookups(rep: &mut Report, when: &str) {
+    let reference = RefPsl::parse(PRIVATE_RULES);
+    let provider = ListProvider::<PrivateList>::new();
+    let mut queries: Vec<String> = Vec::new();
+    for r in reference.rules.iter() {
+        for (q, _) in rule_queries(r) {
+            queries.push(q);
+        }
+    }
+    for q in ["com", "example.com", "www.example.co.uk", "a.b.c", "dev.corp", "x.dev.corp", "y.x.dev.corp", "www.dev.corp", "a.www.dev.corp", "portal.intra.corp", "printer.lan", "lan", "corp", "a.corp"] {
+        queries.push(q.to_string());
+    }
+    for q in queries {
+        rep.eval();
+        let case = json!({"query": q, "table": "a private five-rule list (second Table implementation)", "when": when});
+        match catch(|| (provider.public_suffix(&q).to_string(), provider.effective_tld_plus_one(&q).ok().map(|s| s.to_string()))) {
+            Err((sig, d)) => rep.violate(&format!("lookup on a second Table implementation {sig}"), d, case),
+            Ok((ps, e1)) => {
+                rep.count("private_table_lookups");
+                let (want, _) = reference.public_suffix(&q);
+                if ps != want {
+                    rep.violate("a second Table implementation used next to the shipped one: public_suffix differs from the list algorithm over its rules", format!("table says {ps:?}, list algorithm says {want:?}"), case.clone());
+                }
+                let want1 = reference.etld_plus_one(&q).ok().map(|s| s.to_string());
+                if e1 != want1 {
+                    rep.violate("a second Table implementation used next to the shipped one: eTLD+1 differs from the list algorithm over its rules", format!("table says {e1:?}, list algorithm says {want1:?}"), case);
+                }
+            }
+        }
+    }
+}
+
 /// a provider object that lives for the whole run
 static KEPT: PublicSuffixList = PublicSuffixList::new();
 
@@ -327,6 +401,9 @@ fn arbitrary(ctx: &mut Ctx, rng: &mut Rng, n: usize, thorough: bool) {
         "\u{0}".into(), "a\u{0}.com".into(), "\u{202e}moc.elpmaxe".into(), "🙂.🙂".into(), " ".into(), "a b.com".into(),
         "xn--".into(), "xn--.com".into(), "*.ck".into(), "!www.ck".into(), "*".into(), "*.*".into(),
         "a.b.c.d.e.f.g.h.i.j.k.l.m.n.o.p.q.r.s.t.u.v.w.x.y.z.com".into(),
+        // names made of numbers (the list algorithm does not know about address literals)
+        "192.168.0.1".into(), "10.0.0.1".into(), "1.2.3.4".into(), "255.255.255.255".into(), "127.0.0.1".into(), "0.0.0.0".into(), "1.1".into(), "1.2.3".into(), "1.2.3.4.5".into(),
+        "www.192.168.0.1".into(), "::ffff:192.168.0.1".into(), "::1".into(), "[::1]".into(), "2001:db8::1".into(), "0x7f.1".into(), "192.168.0.256".into(),
         "www.ck".into(), "a.www.ck".into(), "foo.ck".into(), "a.foo.ck".into(), "city.kawasaki.jp".into(),
         "foo.kawasaki.jp".into(), "a.b.kobe.jp".into(), "co.uk".into(), "a.co.uk".into(), "uk".into(),
     ];
@@ -362,7 +439,7 @@ pub fn run(args: &Args) -> Report {
         "C10",
         &args.tier,
         args.seed,
-        "queries derived from every rule of public_suffix_list.dat (as is, +1/+2/+3 labels, leading label removed/replaced, wildcard instantiated, exception +/- a label) plus labels of 62-200 octets in wildcard positions and left of rules, plus arbitrary strings, every query also put to one provider object kept for the whole run, plus lookups on one provider object from 8-16 threads at once; distinct by query string; non-trivial when the reference says an explicit rule (normal, wildcard or exception) decides it, or the name has an empty label",
+        "queries derived from every rule of public_suffix_list.dat (as is, +1/+2/+3 labels, leading label removed/replaced, wildcard instantiated, exception +/- a label) plus labels of 62-200 octets in wildcard positions and left of rules, plus arbitrary strings, every query also put to one provider object kept for the whole run, plus lookups on one provider object from 8-16 threads at once, plus a second Table implementation (a private five-rule list) used in the same process before and after the shipped one; distinct by query string; non-trivial when the reference says an explicit rule (normal, wildcard or exception) decides it, or the name has an empty label",
     );
     rep.assumptions.push("idna crate converts IDN rules to the punycode form the table is keyed in".into());
     rep.assumptions.push("reference comparison for canonical (lower-case ASCII/punycode) names, as the crate documents, and for lower-case names with non-ASCII labels none of whose label-aligned suffixes is the Unicode presentation of an IDN rule (for these the list algorithm has one answer whichever presentation of the rules is used); other strings get the structural clauses".into());
@@ -382,6 +459,12 @@ pub fn run(args: &Args) -> Report {
     }));
     let mut rng = Rng::derive(args.seed, "c10", 0);
     let idn_unicode = psl.rules.iter().filter(|r| r.ascii != r.unicode).map(|r| r.unicode.clone()).collect();
+    // a private list is used in the same process: before the shipped one's first lookup in the
+    // overflow-checking build, after its last in the release build, and once more at the end
+    let private_first = args.engine.as_deref() != Some("release");
+    if private_first && args.get("replay").is_none() {
+        private_table_lookups(&mut rep, "before the first lookup on the shipped list");
+    }
     let mut ctx = Ctx { psl: &psl, rep: &mut rep, idn_unicode };
 
     if let Some(path) = args.get("replay") {
@@ -466,6 +549,7 @@ pub fn run(args: &Args) -> Report {
     if !cfg!(miri) {
         shared_object_lookups(&mut rep, &psl, args.seed, args.thorough());
     }
+    private_table_lookups(&mut rep, "after the lookups on the shipped list");
     rep.exhaustive = true;
     rep.obs("exhaustive_over", json!("all rules of the shipped list (arbitrary strings are sampled)"));
     if rep.get("class:normal") == 0 || rep.get("class:wildcard") == 0 || rep.get("class:exception") == 0 {
